@@ -1013,4 +1013,397 @@ theorem decode_empty (ov : Bool) {T : ExtTypes} (X : Ext T) (N : Usize) (self : 
     AEADCipherCodec.decode ov X N self context session [] = PWGen.Res.ok (self, context, session, [], RResult.ok none) := by
   rw [AEADCipherCodec.decode]; rfl
 
+/-! ## Part 4 — client mode (the response): echoed request salt, `expect_u8`, timestamp -/
+
+theorem copy_to_slice_eval {ρ : Type} (b : List UInt8) (n : Usize) (h : n.toNat ≤ b.length) :
+    (Flow.copy_to_slice b n : Flow _ ρ) = Flow.next (b.drop n.toNat, b.take n.toNat) := by simp [Flow.copy_to_slice, h]
+
+theorem init2022_client (ov : Bool) (E : MEnv) (k : Ss.Kind) (N : Usize) (self : AEADCipherCodec MT) (context : Context MT)
+    (session : Session) (src : List UInt8)
+    (hk : toKind context.kind = some k) (h22 : k.is2022 = true) (hN : N.toNat = k.n)
+    (hm : session.mode = .Client)
+    (hself : self.decoder = none)
+    (hb : src.length < 2 ^ 64) (hn : k.n ≤ src.length) (hnow : E.now < 2 ^ 64)
+    (hopen : ∀ a key n ad c p, E.C.openB a key n ad c = some p → c.length = p.length + 16) :
+    ∃ out, AEADCipherCodec.init_aead_2022_payload_decoder ov (XM E) N self context session src = PWGen.Res.ok out ∧
+      Agree E k self context session src out := by
+  unfold AEADCipherCodec.init_aead_2022_payload_decoder
+  have hmm : (toSess session).mode = .client := by simp [toSess, hm, toMode]
+  have hR : Ss.requireEih (toCtx k context) (toSess session) = false := by
+    simp [Ss.requireEih, hmm]
+  have hR' := hR
+  simp only [toCtx] at hR'
+  simp only [tag_size_eval E _ k hk, call_ok, bind_next, hm]
+  rcases kn_cases k N hN with ⟨rfl, hkn⟩ | ⟨rfl, hkn⟩
+  · simp only [if_true, Bool.not_false, Bool.not_true, Bool.false_eq_true, if_false, bind_next, call_ok,
+      U64.addOk, UInt64.reduceAdd, UInt64.reduceToNat, UInt64.reduceOfNat, Nat.reduceAdd, Nat.reducePow, Nat.reduceLT, decide_true, arith_true,
+      remaining_lt src hb, ite_self]
+    by_cases g1 : src.length < 59
+    · simp only [g1, decide_true, if_true, bind_ret, run_ret]
+      refine ⟨_, rfl, ?_⟩
+      have hM : Ss.init2022 E.C (toCtx k context) (envOf E context.nonce_cache) ⟨none, toSess session⟩ src = .fail ⟨none, toSess session⟩ 0 := by
+        simp only [Ss.init2022, hR, hR', hmm, if_true, Bool.false_eq_true, if_false, toCtx, hkn, reduceCtorEq]
+        rw [if_neg (by omega), if_pos (by omega)]
+      exact ⟨by simp [hM, stepView, absRes, hself], by simp [hM, isTake], ⟨by simp [hm], rfl, rfl⟩,
+        by simp [hM, cacheAfter, hR, hmm, hkn, g1]⟩
+    · simp only [g1, decide_false, Bool.false_eq_true, if_false, bind_next, IoCursor.new, Cursor.len, List.length_replicate,
+        UInt64.reduceOfNat]
+      rw [io_slice_eval src 0 16 (by simp; omega)]
+      simp only [bind_next, UInt64.reduceToNat, List.drop_zero, UInt64.reduceAdd]
+      have h16 : (src.take 16).length = 16 := by rw [List.length_take]; omega
+      have hsne : src.take 16 ≠ [] := by
+        intro h; rw [h] at h16; simp at h16
+      rw [check_nonce_eval ov E 16 context (src.take 16) hsne]
+      simp only [call_ok, bind_next]
+      by_cases g2 : (SaltCache.get E.ttl E.nowMs context.nonce_cache (src.take 16)).1 = true
+      · simp only [g2, if_true, bind_ret, run_ret]
+        refine ⟨_, rfl, ?_⟩
+        have hM : Ss.init2022 E.C (toCtx k context) (envOf E context.nonce_cache) ⟨none, toSess session⟩ src = .fail ⟨none, toSess session⟩ 0 := by
+          simp only [Ss.init2022, hR, hR', hmm, if_true, Bool.false_eq_true, if_false, toCtx, hkn, reduceCtorEq]
+          rw [if_neg (by omega), if_neg (by omega), if_pos (by simpa [envOf] using g2)]
+        exact ⟨by simp [hM, stepView, absRes, hself], by simp [hM, isTake], ⟨by simp [hm], rfl, rfl⟩,
+          by simp [hM, cacheAfter, hR, hmm, hkn, g1]⟩
+      · simp only [g2, Bool.false_eq_true, if_false, bind_next]
+        rw [io_bytes_eval src 16 43 (by simp; omega)]
+        simp only [bind_next, UInt64.reduceToNat, UInt64.reduceAdd, new_decoder_eval E _ k hk, call_ok, open_eval]
+        have g2' : (envOf E context.nonce_cache).saltSeen (src.take 16) = false := by simpa [envOf] using g2
+        have hlt : ((src.drop 16).take 43).length = 43 := by rw [List.length_take, List.length_drop]; omega
+        cases hop : Ss.Auth.openB E.C (auth2022 E.C k context.key (src.take 16)) ((src.drop 16).take 43) with
+        | mk o a1 =>
+        cases o with
+        | none =>
+          simp only [call_ok, bind_next, q_err, bind_ret, run_ret]
+          refine ⟨_, rfl, ?_⟩
+          have hM : Ss.init2022 E.C (toCtx k context) (envOf E context.nonce_cache) ⟨none, toSess session⟩ src =
+              .fail ⟨none, { toSess session with requestSalt := some (src.take 16) }⟩ 0 := by
+            simp only [Ss.init2022, hR, hR', hmm, if_true, Bool.false_eq_true, if_false, toCtx, hkn, Ss.init2022Key, reduceCtorEq]
+            rw [if_neg (by omega), if_neg (by omega), if_neg (by simp [g2'])]
+            simp only [newAuth_2022 _ _ _ _ h22, List.drop_zero, hop]
+          exact ⟨by simp [hM, stepView, absRes, hself], by simp [hM, isTake], ⟨by simp [hm], rfl, rfl⟩,
+            by simp [hM, cacheAfter, hR, hmm, hkn, g1]⟩
+        | some h =>
+          have hl : h.length = 27 := by
+            have := hopen _ _ _ _ _ _ (congrArg Prod.fst hop)
+            omega
+          simp only [call_ok, bind_next, q_ok]
+          rw [get_u8_eval h (by omega)]
+          simp only [bind_next, expect_u8_eval, call_ok, toMode, Ss.Mode.expectU8]
+          have hM0 : Ss.init2022 E.C (toCtx k context) (envOf E context.nonce_cache) ⟨none, toSess session⟩ src =
+              Ss.init2022Tail E.C (envOf E context.nonce_cache) ⟨none, { toSess session with requestSalt := some (src.take 16) }⟩
+                { toSess session with requestSalt := some (src.take 16) } src 16 43 16 (src.take 16) a1 h := by
+            simp only [Ss.init2022, hR, hR', hmm, if_true, Bool.false_eq_true, if_false, toCtx, hkn, Ss.init2022Key, reduceCtorEq]
+            rw [if_neg (by omega), if_neg (by omega), if_neg (by simp [g2'])]
+            simp only [newAuth_2022 _ _ _ _ h22, List.drop_zero, hop]
+          by_cases g3 : h.headD 0 = 1
+          · simp only [g3, bne_self_eq_false, Bool.false_eq_true, if_false, bind_next]
+            rw [get_u64_eval (h.drop 1) (by rw [List.length_drop]; omega)]
+            simp only [bind_next, validate_timestamp_eval ov E _ hnow, call_ok, u64_of_be8]
+            by_cases g4 : Ss.absDiff E.now (rdBE ((h.drop 1).take 8)) > Consts.ssMaxTimeDiff
+            · simp only [g4, if_true, q_err, bind_ret, run_ret]
+              refine ⟨_, rfl, ?_⟩
+              have hM : Ss.init2022 E.C (toCtx k context) (envOf E context.nonce_cache) ⟨none, toSess session⟩ src =
+                  .fail ⟨none, { toSess session with requestSalt := some (src.take 16) }⟩ 0 := by
+                rw [hM0]; simp only [Ss.init2022Tail, hmm, envOf]; rw [if_neg (fun hne => hne g3), if_pos g4]
+              exact ⟨by simp [hM, stepView, absRes, hself], by simp [hM, isTake], ⟨by simp [hm], rfl, rfl⟩,
+                by simp [hM, cacheAfter, hR, hmm, hkn, g1]⟩
+            · simp only [g4, if_false, q_ok, bind_next, Bool.false_eq_true, if_true, unwrap_some, List.drop_drop, Nat.reduceAdd]
+              rw [h16, copy_to_slice_eval (h.drop 9) _ (by simp; omega)]
+              simp only [UInt64.reduceOfNat, bind_next, ite_self, UInt64.reduceToNat, List.drop_drop, Nat.reduceAdd]
+              have hts : (toSess session).salt = session.identity.salt := rfl
+              by_cases g6 : (h.drop 9).take 16 = session.identity.salt
+              · have g6' : (some ((h.drop 9).take 16) != some session.identity.salt) = false := by simp [g6]
+                simp only [g6', Bool.false_eq_true, if_false, bind_next]
+                rw [get_u16_eval (h.drop 25) (by simp only [List.length_drop]; omega)]
+                simp only [bind_next]
+                rw [io_remaining_ge src 59 _ hb]
+                simp only [addOk_u16, addOk_u16', arith_true, bind_next, len_add16, UInt64.reduceToNat, List.drop_drop, Nat.reduceAdd]
+                have hdl : (src.drop 59).length = src.length - 59 := List.length_drop
+                by_cases g5 : (src.drop 59).length < rdBE ((h.drop 25).take 2) + 16
+                · have e5 : ¬ (rdBE ((h.drop 25).take 2) + 16 ≤ src.length - 59) := by omega
+                  simp only [e5, decide_false, Bool.false_eq_true, if_false, bind_next, run_ret]
+                  refine ⟨_, rfl, ?_⟩
+                  have hM : Ss.init2022 E.C (toCtx k context) (envOf E context.nonce_cache) ⟨none, toSess session⟩ src = .need := by
+                    rw [hM0]; simp only [Ss.init2022Tail, hmm, envOf]
+                    rw [if_neg (fun hne => hne g3), if_neg g4, if_neg (by rw [hts]; exact fun hx => hx.2 g6), if_pos g5]
+                  exact ⟨by simp [hM, stepView, absRes, hself], by simp [hM, isTake], ⟨by simp [hm], rfl, rfl⟩,
+                    by simp [hM, cacheAfter, hkn]⟩
+                · have e5 : (rdBE ((h.drop 25).take 2) + 16 ≤ src.length - 59) := by omega
+                  simp only [e5, decide_true, if_true, set_nonce_eval, call_ok, bind_next,
+                    insert_after_get _ _ _ _ _ (by simpa using g2), Bool.not_false, Bool.not_true, Bool.false_eq_true, if_false,
+                    IoCursor.position, U64.as_usize]
+                  rw [advance_eval src 59 (by simp; omega)]
+                  simp only [bind_next, addOk_u16, addOk_u16', arith_true, UInt64.reduceToNat]
+                  rw [split_to_eval (src.drop 59) _ (by rw [len_add16]; omega)]
+                  simp only [bind_next, len_add16, List.drop_drop, open_eval]
+                  have hMt : Ss.init2022 E.C (toCtx k context) (envOf E context.nonce_cache) ⟨none, toSess session⟩ src =
+                      (match Ss.Auth.openB E.C a1 ((src.drop 59).take (rdBE ((h.drop 25).take 2) + 16)) with
+                       | (none, _) => .fail ⟨none, { toSess session with requestSalt := some ((h.drop 9).take 16) }⟩
+                           (16 + 43 + rdBE ((h.drop 25).take 2) + 16)
+                       | (some via, a) => .take ⟨some ⟨a, .length⟩, { toSess session with requestSalt := some ((h.drop 9).take 16) }⟩
+                           (16 + 43 + rdBE ((h.drop 25).take 2) + 16) (.accepted (src.take 16) :: via.map .byte)) := by
+                    rw [hM0]; simp only [Ss.init2022Tail, hmm, envOf]
+                    rw [if_neg (fun hne => hne g3), if_neg g4, if_neg (by rw [hts]; exact fun hx => hx.2 g6), if_neg g5]
+                    simp only [Nat.reduceAdd, reduceCtorEq, if_false, if_true, false_and]
+                    rfl
+                  have hc : 59 + (rdBE ((h.drop 25).take 2) + 16) = 16 + 43 + rdBE ((h.drop 25).take 2) + 16 := by omega
+                  rw [hc]
+                  cases hop2 : Ss.Auth.openB E.C a1 ((src.drop 59).take (rdBE ((h.drop 25).take 2) + 16)) with
+                  | mk o2 a2 =>
+                  rw [hop2] at hMt
+                  cases o2 with
+                  | none =>
+                    simp only [call_ok, bind_next, q_err, bind_ret, run_ret]
+                    refine ⟨_, rfl, ?_⟩
+                    exact ⟨by simp [hMt, stepView, absRes, hself], by simp [hMt, isTake], ⟨by simp [hm], rfl, rfl⟩,
+                      by rw [hMt, cacheAfter_fail_pos _ _ _ _ _ _ (by omega), hkn]⟩
+                  | some via =>
+                    simp only [call_ok, bind_next, q_ok, Bool.false_and, Bool.false_eq_true, if_false, run_ret]
+                    refine ⟨_, rfl, ?_⟩
+                    exact ⟨by simp [hMt, stepView, absRes, toCD, toState, hkn],
+                      by intro _; rw [hMt]; simp [stepView, toSess, hm, toMode],
+                      ⟨by simp [hm], rfl, rfl⟩, by rw [hMt]; simp [cacheAfter, hkn]⟩
+              · have g6' : (some ((h.drop 9).take 16) != some session.identity.salt) = true := by simp [g6]
+                simp only [g6', if_true, bind_ret, run_ret]
+                refine ⟨_, rfl, ?_⟩
+                have hM : Ss.init2022 E.C (toCtx k context) (envOf E context.nonce_cache) ⟨none, toSess session⟩ src =
+                    .fail ⟨none, { toSess session with requestSalt := some (src.take 16) }⟩ 0 := by
+                  rw [hM0]; simp only [Ss.init2022Tail, hmm, envOf]
+                  rw [if_neg (fun hne => hne g3), if_neg g4, if_pos (by rw [hts]; exact ⟨trivial, g6⟩)]
+                exact ⟨by simp [hM, stepView, absRes, hself], by simp [hM, isTake], ⟨by simp [hm], rfl, rfl⟩,
+                  by simp [hM, cacheAfter, hR, hmm, hkn, g1]⟩
+          · have g3' : (h.headD 0 != 1) = true := by simpa using g3
+            simp only [g3', if_true, bind_ret, run_ret]
+            refine ⟨_, rfl, ?_⟩
+            have hM : Ss.init2022 E.C (toCtx k context) (envOf E context.nonce_cache) ⟨none, toSess session⟩ src =
+                .fail ⟨none, { toSess session with requestSalt := some (src.take 16) }⟩ 0 := by
+              rw [hM0]; simp only [Ss.init2022Tail, hmm, envOf]; rw [if_pos (show h.headD 0 ≠ Ss.Mode.client.expectU8 from g3)]
+            exact ⟨by simp [hM, stepView, absRes, hself], by simp [hM, isTake], ⟨by simp [hm], rfl, rfl⟩,
+              by simp [hM, cacheAfter, hR, hmm, hkn, g1]⟩
+  · simp only [if_true, Bool.not_false, Bool.not_true, Bool.false_eq_true, if_false, bind_next, call_ok,
+      U64.addOk, UInt64.reduceAdd, UInt64.reduceToNat, UInt64.reduceOfNat, Nat.reduceAdd, Nat.reducePow, Nat.reduceLT, decide_true, arith_true,
+      remaining_lt src hb, ite_self]
+    by_cases g1 : src.length < 91
+    · simp only [g1, decide_true, if_true, bind_ret, run_ret]
+      refine ⟨_, rfl, ?_⟩
+      have hM : Ss.init2022 E.C (toCtx k context) (envOf E context.nonce_cache) ⟨none, toSess session⟩ src = .fail ⟨none, toSess session⟩ 0 := by
+        simp only [Ss.init2022, hR, hR', hmm, if_true, Bool.false_eq_true, if_false, toCtx, hkn, reduceCtorEq]
+        rw [if_neg (by omega), if_pos (by omega)]
+      exact ⟨by simp [hM, stepView, absRes, hself], by simp [hM, isTake], ⟨by simp [hm], rfl, rfl⟩,
+        by simp [hM, cacheAfter, hR, hmm, hkn, g1]⟩
+    · simp only [g1, decide_false, Bool.false_eq_true, if_false, bind_next, IoCursor.new, Cursor.len, List.length_replicate,
+        UInt64.reduceOfNat]
+      rw [io_slice_eval src 0 32 (by simp; omega)]
+      simp only [bind_next, UInt64.reduceToNat, List.drop_zero, UInt64.reduceAdd]
+      have h32 : (src.take 32).length = 32 := by rw [List.length_take]; omega
+      have hsne : src.take 32 ≠ [] := by
+        intro h; rw [h] at h32; simp at h32
+      rw [check_nonce_eval ov E 32 context (src.take 32) hsne]
+      simp only [call_ok, bind_next]
+      by_cases g2 : (SaltCache.get E.ttl E.nowMs context.nonce_cache (src.take 32)).1 = true
+      · simp only [g2, if_true, bind_ret, run_ret]
+        refine ⟨_, rfl, ?_⟩
+        have hM : Ss.init2022 E.C (toCtx k context) (envOf E context.nonce_cache) ⟨none, toSess session⟩ src = .fail ⟨none, toSess session⟩ 0 := by
+          simp only [Ss.init2022, hR, hR', hmm, if_true, Bool.false_eq_true, if_false, toCtx, hkn, reduceCtorEq]
+          rw [if_neg (by omega), if_neg (by omega), if_pos (by simpa [envOf] using g2)]
+        exact ⟨by simp [hM, stepView, absRes, hself], by simp [hM, isTake], ⟨by simp [hm], rfl, rfl⟩,
+          by simp [hM, cacheAfter, hR, hmm, hkn, g1]⟩
+      · simp only [g2, Bool.false_eq_true, if_false, bind_next]
+        rw [io_bytes_eval src 32 59 (by simp; omega)]
+        simp only [bind_next, UInt64.reduceToNat, UInt64.reduceAdd, new_decoder_eval E _ k hk, call_ok, open_eval]
+        have g2' : (envOf E context.nonce_cache).saltSeen (src.take 32) = false := by simpa [envOf] using g2
+        have hlt : ((src.drop 32).take 59).length = 59 := by rw [List.length_take, List.length_drop]; omega
+        cases hop : Ss.Auth.openB E.C (auth2022 E.C k context.key (src.take 32)) ((src.drop 32).take 59) with
+        | mk o a1 =>
+        cases o with
+        | none =>
+          simp only [call_ok, bind_next, q_err, bind_ret, run_ret]
+          refine ⟨_, rfl, ?_⟩
+          have hM : Ss.init2022 E.C (toCtx k context) (envOf E context.nonce_cache) ⟨none, toSess session⟩ src =
+              .fail ⟨none, { toSess session with requestSalt := some (src.take 32) }⟩ 0 := by
+            simp only [Ss.init2022, hR, hR', hmm, if_true, Bool.false_eq_true, if_false, toCtx, hkn, Ss.init2022Key, reduceCtorEq]
+            rw [if_neg (by omega), if_neg (by omega), if_neg (by simp [g2'])]
+            simp only [newAuth_2022 _ _ _ _ h22, List.drop_zero, hop]
+          exact ⟨by simp [hM, stepView, absRes, hself], by simp [hM, isTake], ⟨by simp [hm], rfl, rfl⟩,
+            by simp [hM, cacheAfter, hR, hmm, hkn, g1]⟩
+        | some h =>
+          have hl : h.length = 43 := by
+            have := hopen _ _ _ _ _ _ (congrArg Prod.fst hop)
+            omega
+          simp only [call_ok, bind_next, q_ok]
+          rw [get_u8_eval h (by omega)]
+          simp only [bind_next, expect_u8_eval, call_ok, toMode, Ss.Mode.expectU8]
+          have hM0 : Ss.init2022 E.C (toCtx k context) (envOf E context.nonce_cache) ⟨none, toSess session⟩ src =
+              Ss.init2022Tail E.C (envOf E context.nonce_cache) ⟨none, { toSess session with requestSalt := some (src.take 32) }⟩
+                { toSess session with requestSalt := some (src.take 32) } src 32 59 32 (src.take 32) a1 h := by
+            simp only [Ss.init2022, hR, hR', hmm, if_true, Bool.false_eq_true, if_false, toCtx, hkn, Ss.init2022Key, reduceCtorEq]
+            rw [if_neg (by omega), if_neg (by omega), if_neg (by simp [g2'])]
+            simp only [newAuth_2022 _ _ _ _ h22, List.drop_zero, hop]
+          by_cases g3 : h.headD 0 = 1
+          · simp only [g3, bne_self_eq_false, Bool.false_eq_true, if_false, bind_next]
+            rw [get_u64_eval (h.drop 1) (by rw [List.length_drop]; omega)]
+            simp only [bind_next, validate_timestamp_eval ov E _ hnow, call_ok, u64_of_be8]
+            by_cases g4 : Ss.absDiff E.now (rdBE ((h.drop 1).take 8)) > Consts.ssMaxTimeDiff
+            · simp only [g4, if_true, q_err, bind_ret, run_ret]
+              refine ⟨_, rfl, ?_⟩
+              have hM : Ss.init2022 E.C (toCtx k context) (envOf E context.nonce_cache) ⟨none, toSess session⟩ src =
+                  .fail ⟨none, { toSess session with requestSalt := some (src.take 32) }⟩ 0 := by
+                rw [hM0]; simp only [Ss.init2022Tail, hmm, envOf]; rw [if_neg (fun hne => hne g3), if_pos g4]
+              exact ⟨by simp [hM, stepView, absRes, hself], by simp [hM, isTake], ⟨by simp [hm], rfl, rfl⟩,
+                by simp [hM, cacheAfter, hR, hmm, hkn, g1]⟩
+            · simp only [g4, if_false, q_ok, bind_next, Bool.false_eq_true, if_true, unwrap_some, List.drop_drop, Nat.reduceAdd]
+              rw [h32, copy_to_slice_eval (h.drop 9) _ (by simp; omega)]
+              simp only [UInt64.reduceOfNat, bind_next, ite_self, UInt64.reduceToNat, List.drop_drop, Nat.reduceAdd]
+              have hts : (toSess session).salt = session.identity.salt := rfl
+              by_cases g6 : (h.drop 9).take 32 = session.identity.salt
+              · have g6' : (some ((h.drop 9).take 32) != some session.identity.salt) = false := by simp [g6]
+                simp only [g6', Bool.false_eq_true, if_false, bind_next]
+                rw [get_u16_eval (h.drop 41) (by simp only [List.length_drop]; omega)]
+                simp only [bind_next]
+                rw [io_remaining_ge src 91 _ hb]
+                simp only [addOk_u16, addOk_u16', arith_true, bind_next, len_add16, UInt64.reduceToNat, List.drop_drop, Nat.reduceAdd]
+                have hdl : (src.drop 91).length = src.length - 91 := List.length_drop
+                by_cases g5 : (src.drop 91).length < rdBE ((h.drop 41).take 2) + 16
+                · have e5 : ¬ (rdBE ((h.drop 41).take 2) + 16 ≤ src.length - 91) := by omega
+                  simp only [e5, decide_false, Bool.false_eq_true, if_false, bind_next, run_ret]
+                  refine ⟨_, rfl, ?_⟩
+                  have hM : Ss.init2022 E.C (toCtx k context) (envOf E context.nonce_cache) ⟨none, toSess session⟩ src = .need := by
+                    rw [hM0]; simp only [Ss.init2022Tail, hmm, envOf]
+                    rw [if_neg (fun hne => hne g3), if_neg g4, if_neg (by rw [hts]; exact fun hx => hx.2 g6), if_pos g5]
+                  exact ⟨by simp [hM, stepView, absRes, hself], by simp [hM, isTake], ⟨by simp [hm], rfl, rfl⟩,
+                    by simp [hM, cacheAfter, hkn]⟩
+                · have e5 : (rdBE ((h.drop 41).take 2) + 16 ≤ src.length - 91) := by omega
+                  simp only [e5, decide_true, if_true, set_nonce_eval, call_ok, bind_next,
+                    insert_after_get _ _ _ _ _ (by simpa using g2), Bool.not_false, Bool.not_true, Bool.false_eq_true, if_false,
+                    IoCursor.position, U64.as_usize]
+                  rw [advance_eval src 91 (by simp; omega)]
+                  simp only [bind_next, addOk_u16, addOk_u16', arith_true, UInt64.reduceToNat]
+                  rw [split_to_eval (src.drop 91) _ (by rw [len_add16]; omega)]
+                  simp only [bind_next, len_add16, List.drop_drop, open_eval]
+                  have hMt : Ss.init2022 E.C (toCtx k context) (envOf E context.nonce_cache) ⟨none, toSess session⟩ src =
+                      (match Ss.Auth.openB E.C a1 ((src.drop 91).take (rdBE ((h.drop 41).take 2) + 16)) with
+                       | (none, _) => .fail ⟨none, { toSess session with requestSalt := some ((h.drop 9).take 32) }⟩
+                           (32 + 59 + rdBE ((h.drop 41).take 2) + 16)
+                       | (some via, a) => .take ⟨some ⟨a, .length⟩, { toSess session with requestSalt := some ((h.drop 9).take 32) }⟩
+                           (32 + 59 + rdBE ((h.drop 41).take 2) + 16) (.accepted (src.take 32) :: via.map .byte)) := by
+                    rw [hM0]; simp only [Ss.init2022Tail, hmm, envOf]
+                    rw [if_neg (fun hne => hne g3), if_neg g4, if_neg (by rw [hts]; exact fun hx => hx.2 g6), if_neg g5]
+                    simp only [Nat.reduceAdd, reduceCtorEq, if_false, if_true, false_and]
+                    rfl
+                  have hc : 91 + (rdBE ((h.drop 41).take 2) + 16) = 32 + 59 + rdBE ((h.drop 41).take 2) + 16 := by omega
+                  rw [hc]
+                  cases hop2 : Ss.Auth.openB E.C a1 ((src.drop 91).take (rdBE ((h.drop 41).take 2) + 16)) with
+                  | mk o2 a2 =>
+                  rw [hop2] at hMt
+                  cases o2 with
+                  | none =>
+                    simp only [call_ok, bind_next, q_err, bind_ret, run_ret]
+                    refine ⟨_, rfl, ?_⟩
+                    exact ⟨by simp [hMt, stepView, absRes, hself], by simp [hMt, isTake], ⟨by simp [hm], rfl, rfl⟩,
+                      by rw [hMt, cacheAfter_fail_pos _ _ _ _ _ _ (by omega), hkn]⟩
+                  | some via =>
+                    simp only [call_ok, bind_next, q_ok, Bool.false_and, Bool.false_eq_true, if_false, run_ret]
+                    refine ⟨_, rfl, ?_⟩
+                    exact ⟨by simp [hMt, stepView, absRes, toCD, toState, hkn],
+                      by intro _; rw [hMt]; simp [stepView, toSess, hm, toMode],
+                      ⟨by simp [hm], rfl, rfl⟩, by rw [hMt]; simp [cacheAfter, hkn]⟩
+              · have g6' : (some ((h.drop 9).take 32) != some session.identity.salt) = true := by simp [g6]
+                simp only [g6', if_true, bind_ret, run_ret]
+                refine ⟨_, rfl, ?_⟩
+                have hM : Ss.init2022 E.C (toCtx k context) (envOf E context.nonce_cache) ⟨none, toSess session⟩ src =
+                    .fail ⟨none, { toSess session with requestSalt := some (src.take 32) }⟩ 0 := by
+                  rw [hM0]; simp only [Ss.init2022Tail, hmm, envOf]
+                  rw [if_neg (fun hne => hne g3), if_neg g4, if_pos (by rw [hts]; exact ⟨trivial, g6⟩)]
+                exact ⟨by simp [hM, stepView, absRes, hself], by simp [hM, isTake], ⟨by simp [hm], rfl, rfl⟩,
+                  by simp [hM, cacheAfter, hR, hmm, hkn, g1]⟩
+          · have g3' : (h.headD 0 != 1) = true := by simpa using g3
+            simp only [g3', if_true, bind_ret, run_ret]
+            refine ⟨_, rfl, ?_⟩
+            have hM : Ss.init2022 E.C (toCtx k context) (envOf E context.nonce_cache) ⟨none, toSess session⟩ src =
+                .fail ⟨none, { toSess session with requestSalt := some (src.take 32) }⟩ 0 := by
+              rw [hM0]; simp only [Ss.init2022Tail, hmm, envOf]; rw [if_pos (show h.headD 0 ≠ Ss.Mode.client.expectU8 from g3)]
+            exact ⟨by simp [hM, stepView, absRes, hself], by simp [hM, isTake], ⟨by simp [hm], rfl, rfl⟩,
+              by simp [hM, cacheAfter, hR, hmm, hkn, g1]⟩
+/-- from the header parser to the whole `decode` call (2022 cipher, no decoder yet), whatever the mode: the empty-buffer
+and short-salt returns, the dispatch on `is_aead_2022`, the recursion-free path through the recursive group -/
+theorem decode_2022_of_init (ov : Bool) (E : MEnv) (k : Ss.Kind) (N : Usize) (self : AEADCipherCodec MT) (context : Context MT)
+    (session : Session) (src : List UInt8)
+    (hk : toKind context.kind = some k) (h22 : k.is2022 = true) (hN : N.toNat = k.n)
+    (hsalt : session.identity.salt.length = N.toNat) (hself : self.decoder = none) (hb : src.length < 2 ^ 64)
+    (hinit : k.n ≤ src.length → ∃ out, AEADCipherCodec.init_aead_2022_payload_decoder ov (XM E) N self context session src =
+      PWGen.Res.ok out ∧ Agree E k self context session src out) :
+    ∃ out, AEADCipherCodec.decode ov (XM E) N self context session src = PWGen.Res.ok out ∧
+      AgreeCall E k self context session src out := by
+  have hctx : (toCtx k context).kind.is2022 = true := h22
+  rw [AEADCipherCodec.decode]
+  by_cases he : src.isEmpty = true
+  · simp only [Cursor.is_empty, he, if_true, bind_ret, run_ret]
+    refine ⟨_, rfl, ?_⟩
+    have hc := cipherDecode_2022 E.C (toCtx k context) (envOf E context.nonce_cache) (toSess session) src hctx
+    rw [if_pos he] at hc
+    exact ⟨by simp [hc, absRes, hself], by intro via hv; simp at hv, ⟨rfl, rfl, rfl⟩, ⟨rfl, rfl, rfl, rfl⟩⟩
+  · simp only [Cursor.is_empty, he, Bool.false_eq_true, if_false, bind_next]
+    have hc := cipherDecode_2022 E.C (toCtx k context) (envOf E context.nonce_cache) (toSess session) src hctx
+    rw [if_neg he] at hc
+    split
+    · rename_i v hv; rw [hself] at hv; cases hv
+    · rw [AEADCipherCodec.init_payload_decoder]
+      have hsl : (Cursor.len session.identity.salt).toNat = k.n := by
+        rw [Cursor.len, hsalt, UInt64.ofNat_toNat, hN]
+      by_cases hshort : src.length < k.n
+      · simp only [remaining_lt src hb, hsl, hshort, decide_true, if_true, bind_ret, run_ret, call_ok, bind_next]
+        refine ⟨_, rfl, ?_⟩
+        rw [init2022_short _ _ _ _ _ hshort] at hc
+        exact ⟨by simp [hc, stepView, absRes, hself], by intro via hv; simp at hv, ⟨rfl, rfl, rfl⟩, ⟨rfl, rfl, rfl, rfl⟩⟩
+      · simp only [remaining_lt src hb, hsl, hshort, decide_false, Bool.false_eq_true, if_false, bind_next,
+          is_aead_2022_eval ov _ k hk, h22, call_ok, if_true]
+        obtain ⟨out, ho, ha⟩ := hinit (by omega)
+        rw [ho]
+        simp only [call_ok, bind_next, run_ret]
+        refine ⟨_, rfl, ?_⟩
+        have hT := fun via hv => isTake_of_some E k self context session src out via ha hv
+        obtain ⟨hview, hsess, hframe, hcache⟩ := ha
+        refine ⟨?_, ?_, hframe, ?_⟩
+        · rw [hc]; exact hview
+        · intro via hv
+          rw [hc]
+          exact hsess (hT via hv)
+        · rw [hcache]; exact ⟨rfl, rfl, rfl, rfl⟩
+
+/-- the accepting step of `init2022` is an accepting `init2022Tail` on the opened fixed header -/
+theorem init2022_take_tail (C : Crypto) (ctx : Ss.Ctx) (env : Ss.DecEnv) (d : Ss.Dec) (b : Bytes) (d' : Ss.Dec) (n : Nat)
+    (o : List Ss.Ev) (h : Ss.init2022 C ctx env d b = .take d' n o) :
+    ∃ dd s1 hl salt a hh, Ss.init2022Tail C env dd s1 b ctx.kind.n hl (if d.sess.mode = .server then 0 else ctx.kind.n) salt a hh =
+        .take d' n o ∧ s1.mode = d.sess.mode ∧ s1.salt = d.sess.salt := by
+  unfold Ss.init2022 at h
+  simp only [] at h
+  generalize (if d.sess.mode = .server then 0 else ctx.kind.n) = rsl at h ⊢
+  generalize Ss.requireEih ctx d.sess = req at h
+  generalize (if req = true then 16 else 0) = el at h
+  split at h
+  · cases h
+  split at h
+  · cases h
+  split at h
+  · cases h
+  split at h
+  · cases h
+  · split at h
+    · cases h
+    · exact ⟨_, _, _, _, _, _, h, rfl, rfl⟩
+
+
+/-- **one `decode` call, Shadowsocks 2022, client (the response)**: never panics, terminates, and is the model's `cipherDecode` -/
+theorem decode_2022_client (ov : Bool) (E : MEnv) (k : Ss.Kind) (N : Usize) (self : AEADCipherCodec MT) (context : Context MT)
+    (session : Session) (src : List UInt8)
+    (hk : toKind context.kind = some k) (h22 : k.is2022 = true) (hN : N.toNat = k.n)
+    (hsalt : session.identity.salt.length = N.toNat)
+    (hm : session.mode = .Client)
+    (hself : self.decoder = none)
+    (hb : src.length < 2 ^ 64) (hnow : E.now < 2 ^ 64)
+    (hopen : ∀ a key n ad c p, E.C.openB a key n ad c = some p → c.length = p.length + 16) :
+    ∃ out, AEADCipherCodec.decode ov (XM E) N self context session src = PWGen.Res.ok out ∧
+      AgreeCall E k self context session src out :=
+  decode_2022_of_init ov E k N self context session src hk h22 hN hsalt hself hb
+    (fun hn => init2022_client ov E k N self context session src hk h22 hN hm hself hb hn hnow hopen)
+
 end Octo.SsTcpGen
